@@ -33,12 +33,13 @@ type recvCase struct {
 	WithTC  bool
 }
 
-func recvProp(c recvCase) common.Result {
+func recvProp(c recvCase) (verdict common.Result) {
 	cl, err := New(Config{N: 4, Rules: "chainedhotstuff", Crypto: c.Crypto, Batch: 1, KauriTree: c.Kauri})
 	if err != nil {
 		return common.Fail("harness", "cluster: %v", err)
 	}
 	defer cl.Close()
+	defer func() { verdict = cl.Verdict("C12", verdict) }()
 	cl.topUp() // the receiver may become leader through what it receives: its proposer must find client commands
 	sub := cl.Stacks[0]
 	if c.Kauri && c.RPC == "propose" {
